@@ -1,3 +1,4 @@
+mod c19;
 mod exec;
 mod props;
 mod solver;
